@@ -28,6 +28,8 @@ import (
 type construct struct {
 	kind    string // size-hugeParam, size-rangeValCopy, size-rangeExprCopy, results, nesting, ifelse
 	measure int
+	first   int // extent of the generated function
+	last    int
 	line    int
 	extra   string // for ifelse: Coq term of the chain
 }
@@ -134,9 +136,10 @@ func Run(tier string, seed int64, outDir string) *common.Meta {
 	line := 3
 	var cons []construct
 	emit := func(kind string, measure int, extra string, text string, warnLineOffset int) {
-		cons = append(cons, construct{kind, measure, line + warnLineOffset, extra})
+		n := strings.Count(text, "\n")
+		cons = append(cons, construct{kind, measure, line, line + n - 1, line + warnLineOffset, extra})
 		src.WriteString(text)
-		line += strings.Count(text, "\n")
+		line += n
 	}
 	measures := []int{1, 2, 3, 5, 8, 33, 80, 128, 129, 512}
 	if tier == "thorough" {
@@ -169,7 +172,7 @@ func Run(tier string, seed int64, outDir string) *common.Meta {
 	}
 	// if-else chains: k branches, optional final else, optional Init at position p
 	chainID := 0
-	for k := 1; k <= 6; k++ {
+	for _, k := range []int{1, 2, 3, 4, 5, 6, 9, 12} {
 		for _, final := range []bool{false, true} {
 			for initAt := -1; initAt < k; initAt++ {
 				if initAt > 0 && initAt != k-1 && tier == "quick" {
@@ -261,6 +264,15 @@ func Run(tier string, seed int64, outDir string) *common.Meta {
 				lines[env.fset.Position(w.Pos).Line] = w.Text
 			}
 			cur := map[int]bool{}
+			// inside a construct of this kind only its designated line may be reported (one report per construct)
+			for ln, text := range lines {
+				for _, c := range cons {
+					// (chains containing an Init clause are given up on by design and may be revisited piecewise)
+					if c.kind == kind && ln >= c.first && ln <= c.last && ln != c.line && !strings.Contains(c.extra, "true") && t >= 1 {
+						meta.Fail("C14/"+spec.checker+"/unexpected-diagnostic", fmt.Sprintf("%s with %s=%d reports line %d (%s) inside a construct whose only reportable place is line %d: a construct is reported more than once or in pieces", spec.checker, spec.param, t, ln, text, c.line), map[string]int{"threshold": t, "line": ln, "measure": c.measure})
+					}
+				}
+			}
 			for _, c := range cons {
 				if c.kind != kind {
 					continue
